@@ -113,6 +113,22 @@ Theorem C16_context_values_in_force (st : settings F) (cs : list (context F)) dt
   trace_on (enter_all st cs) = match innermost_trace F cs with Some v => v | None => trace_on st end.
 Proof. exact (conj (enter_all_jitter F st cs dt) (conj (enter_all_tries F st cs) (enter_all_trace F st cs))). Qed.
 
+(* HISTORIES of context objects (Model.v, Section SettingsHistories: every object keeps its own STACK of saved values, __enter__ pushes,
+   __exit__ pops and restores).  After ANY balanced (well-nested) sequence of __enter__ / __exit__ — any depth, any mixture of
+   cholesky_jitter / cholesky_max_tries / trace_mode objects, the SAME object entered again while still open (re-entrant) or after it
+   was left (re-use) — the settings in force and every object's stack are exactly the initial ones ... *)
+Theorem C16_balanced_history_restores (objs : list (context F)) evs st stacks :
+  balanced evs -> length objs <= length stacks ->
+  run objs (st, stacks) evs = (st, stacks).
+Proof. exact (fun H => run_balanced F objs evs H st stacks). Qed.
+
+(* ... so a call made afterwards behaves exactly as under the initial (fresh) settings *)
+Theorem C16_call_after_balanced_history (objs : list (context F)) evs st stacks d32 dt n A upper jitter max_tries :
+  balanced evs -> length objs <= length stacks ->
+  psc ar chol_ex (fst (run objs (st, stacks) evs)) d32 dt n A upper jitter max_tries
+  = psc ar chol_ex st d32 dt n A upper jitter max_tries.
+Proof. exact (psc_after_balanced F ar chol_ex objs evs st stacks d32 dt n A upper jitter max_tries). Qed.
+
 (* THE LADDER (minimality statement instantiated on the announced values), whatever the outcome (normal return or
    NotPSDError), any batch, any arithmetic: the i-th try announces exactly jitter * 10^i (`J j i = j * pow10 i`,
    pow10 0 = 1, pow10 (S i) = pow10 i * 10), i < number of tries <= max_tries; C16_telescope / C16_ok_characterisation
@@ -454,5 +470,18 @@ Example ex_ladder :   (* C16_ladder on the hopeless batch: 3 tries announce 1*10
   warnings_of Z (fst (psc ArZ ck st true Float64 1 [pd; hopeless200] false None None))
   = map (J Z ArZ 1%Z) (seq 0 3) /\ map (J Z ArZ 1%Z) (seq 0 3) = [1%Z; 10%Z; 100%Z].
 Proof. split; reflexivity. Qed.
+
+(* re-entrant use of ONE cholesky_jitter object (entered twice, left twice) around a cholesky_max_tries object: the hypotheses of
+   C16_balanced_history_restores; inside, the object's value is in force; afterwards everything is as before *)
+Example ex_reentrant_history :
+  let objs := [CtxJitter (Some 7%Z) (Some 7%Z) None; CtxMaxTries 5%Z] in
+  balanced [Enter 0; Enter 1; Enter 0; Exit 0; Exit 1; Exit 0] /\
+  fst (run objs (st, [[]; []]) [Enter 0; Enter 1; Enter 0]) = MkSettings 7%Z 7%Z 1%Z 5%Z false /\
+  run objs (st, [[]; []]) [Enter 0; Enter 1; Enter 0; Exit 0; Exit 1; Exit 0] = (st, [[]; []]).
+Proof.
+  split; [|split; reflexivity].
+  apply (bal_wrap 0 [Enter 1; Enter 0; Exit 0; Exit 1]).
+  apply (bal_wrap 1 [Enter 0; Exit 0]). apply (bal_wrap 0 []). apply bal_nil.
+Qed.
 
 End Examples.
